@@ -241,3 +241,76 @@ def script_line(e):
     """Default script line for an event: op followed by its integer arguments in the order registered."""
     fields = SCRIPT_FIELDS.get(e.get("_h", "current"), SCRIPT_FIELDS.get("current", ("i", "v")))
     return " ".join([str(e["op"])] + [str(e.get(k, 0)) for k in fields])
+
+
+# ---------------------------------------------------------------------------------------------
+# Generic container driver: model runs -> tours -> replays (per flag set / build mode) -> validation,
+# then seeded random histories.  `desc` is a module-like object with:
+#   NAME, MODULE, TRACE_MODULE, HARNESS, FIELDS
+#   models(tier) -> [dict(tag, consts, invariants, properties, subst?, replays=[dict(tag, args=fn(script, trace, flags))], trace_consts?)]
+#   randoms(tier, rng) -> [dict(tag, segs, trace_consts, replays=[...])]
+# ---------------------------------------------------------------------------------------------
+def fmt_fields(fields):
+    def f(op):
+        return " ".join([str(op["op"])] + [str(op.get(k, 0)) for k in fields])
+    return f
+
+
+def run_container(chk, tier, seed, desc, owned, flagsets=("",), modes=("plain",), do_random=True, threads=6,
+                  model_filter=None, replays_per_model=None):
+    rng = random.Random(seed)
+    SCRIPT_FIELDS[desc.HARNESS] = desc.FIELDS
+    fmt = fmt_fields(desc.FIELDS)
+    wd = workdir(desc.NAME)
+    for mode in modes:
+        vf.build(desc.HARNESS, mode=mode, wraps=default_wraps(mode))
+    ownedc = vf.Raw(vf.tla_val(set(owned)))
+    models = desc.models(tier)
+    if model_filter:
+        models = [m for m in models if model_filter(m)]
+
+    def replay_all(m, script, tagname, trace_consts, count_distinct=False):
+        reps = m["replays"]
+        if replays_per_model:
+            reps = reps[:replays_per_model]
+        for rp in reps:
+            for flags in flagsets:
+                for mode in modes:
+                    def args(script_, trace_, rp=rp, flags=flags):
+                        return rp["args"](script_, trace_, flags or "-")
+                    v = Variant("%s-%s-%s" % (mode, rp["tag"], flags or "n"), desc.HARNESS, args, desc.TRACE_MODULE,
+                                trace_consts, mode=mode, owned=owned, subst=m.get("trace_subst"))
+                    res = replay_and_validate(chk, v, script, tagname)
+                    if count_distinct:
+                        chk.add_cases(0, distinct_n=res["events"] // 2)
+
+    def one(arg):
+        n, m = arg
+        tag = "%s-%s" % (desc.NAME, m["tag"])
+        r, edges = model_run(chk, tag, desc.MODULE, m["consts"], workers=m.get("workers", 2),
+                             invariants=m.get("invariants", ()), properties=m.get("properties", ()),
+                             subst=m.get("subst"), heap=m.get("heap", "4g"), view=m.get("view", "View"))
+        if not r.ok or not edges:
+            return
+        segs, st = vf.tour(edges, maxseg=m.get("maxseg", 400))
+        chk.add_cases(0, distinct_n=st["edges"])
+        chk.parts.setdefault("tours", {})[tag] = st
+        if st["uncovered"]:
+            chk.infra.append("tour of %s left %d edges uncovered" % (tag, st["uncovered"]))
+        script = os.path.join(wd, "tour-%s-%s.script" % (m["tag"], chk.pid))
+        write_script(script, segs, fmt)
+        if n == 0:
+            chk.sample(dict(model=tag, tour_segment=[fmt(o) for o in segs[-1][:25]]))
+        tc = dict(m.get("trace_consts", m["consts"])); tc["Owned"] = ownedc
+        replay_all(m, script, "%s-%s-tour-%s" % (chk.pid, desc.NAME, m["tag"]), tc)
+
+    with ThreadPoolExecutor(threads) as ex:
+        list(ex.map(one, enumerate(models)))
+    if do_random and hasattr(desc, "randoms"):
+        def rnd(m):
+            script = os.path.join(wd, "rand-%s-%s.script" % (m["tag"], chk.pid))
+            write_script(script, m["segs"], fmt)
+            tc = dict(m["trace_consts"]); tc["Owned"] = ownedc
+            replay_all(m, script, "%s-%s-rand-%s" % (chk.pid, desc.NAME, m["tag"]), tc, count_distinct=True)
+        with ThreadPoolExecutor(threads) as ex:
+            list(ex.map(rnd, desc.randoms(tier, rng)))
